@@ -7,7 +7,9 @@
 //! cap, plus boundary values; non-terminating programs get small, medium and seeded budgets.
 use super::vmcommon::*;
 use crate::ctl::vmctl::{CtlConfig, GcPlan};
-use crate::ctl::vmrun::{innermost, run_program, HostPlan, Knobs, RunOut};
+use crate::ctl::vmctl::VmCtl;
+use crate::kernel::worker::catch;
+use crate::ctl::vmrun::{collect, empty_out, innermost, new_vm, run_program, teardown, HostPlan, Knobs, RunOut};
 use crate::gen::loops::{gen_loop_program, gen_shape};
 use crate::gen::program::{gen_program, GenCfg};
 use crate::kernel::{prng, CaseCtx, Check, Tier};
@@ -100,6 +102,135 @@ fn check_budget(p: &CaoCompiledProgram, n: u64, t: Option<u64>, unbounded: Optio
     None
 }
 
+/// Several runs on ONE VM, run i under budget `budgets[i]` (set the way a host does, through
+/// `max_instr`). Returns per run the outcome and the number of instructions it dispatched. The
+/// controller stops a run the moment it dispatches more than min(budget, DRY_CAP) instructions.
+fn run_history(p: &CaoCompiledProgram, budgets: &[u64]) -> Vec<(RunOut, u64)> {
+    let ctl = VmCtl::new(CtlConfig { gc: GcPlan::Natural, ..Default::default() });
+    ctl.install();
+    let knobs = Knobs { budget: budgets.first().copied().unwrap_or(1), ..Default::default() };
+    let Some(mut vm) = new_vm(&ctl, &knobs, HostPlan::default()) else {
+        VmCtl::uninstall();
+        return vec![];
+    };
+    let mut outs = vec![];
+    for &n in budgets {
+        let c0 = ctl.counters().dispatches;
+        vm.max_instr = n;
+        ctl.set_cfg(|cfg| cfg.abort_after_dispatches = Some(c0 + n.min(DRY_CAP)));
+        vm.auxiliary_data.ncalls = 0;
+        let r = catch(|| vm.run(p));
+        let out = collect(&mut vm, &ctl, p, r, true);
+        let d = out.counters.dispatches - c0;
+        let stop = out.aborted || out.panic.is_some();
+        outs.push((out, d));
+        if stop {
+            break;
+        }
+    }
+    let mut last = empty_out();
+    if let Some((o, _)) = outs.last() {
+        last.aborted = o.aborted;
+        last.panic = o.panic.clone();
+    }
+    teardown(vm, &ctl, &mut last);
+    VmCtl::uninstall();
+    outs
+}
+
+/// the budget a run gets is the one it was started with, whatever earlier runs on the same VM
+/// used or left over: `budgets` against the reference history (same runs, no limit)
+fn examine_history(ctx: &mut CaseCtx, p: &CaoCompiledProgram, budgets: Option<Vec<u64>>) -> Option<(Json, String, Vec<u64>)> {
+    let runs = budgets.as_ref().map(|b| b.len()).unwrap_or(4).min(6);
+    ctx.progress("history reference");
+    let reference = run_history(p, &vec![1u64 << 40; runs]);
+    ctx.evaluation();
+    // the reference history must be clean: every run ends by itself within the cap
+    let usable = reference.iter().take_while(|(o, _)| !o.aborted && o.panic.is_none()).count();
+    if usable < 2 {
+        ctx.count("history_discarded", 1);
+        return None;
+    }
+    let budgets: Vec<u64> = match budgets {
+        Some(b) => b.into_iter().take(usable).collect(),
+        None => {
+            let mut r = ctx.rng("history");
+            (0..usable)
+                .map(|i| {
+                    let t = reference[i].1;
+                    // the first run mostly finishes with budget to spare
+                    let spare = if i == 0 { r.chance(3, 4) } else { r.chance(1, 2) };
+                    let a = r.below(50);
+                    let b = r.below(t.max(1));
+                    if spare {
+                        *r.pick(&[t + 1, t + 2 + a, 2 * t + 1, 10 * t + 1])
+                    } else {
+                        *r.pick(&[1, 2, (t / 2).max(1), t.saturating_sub(1).max(1), t.max(1), 1 + b])
+                    }
+                })
+                .collect()
+        }
+    };
+    ctx.progress(&format!("history budgets {budgets:?}"));
+    let outs = run_history(p, &budgets);
+    ctx.evaluation();
+    ctx.count("histories_run", 1);
+    // as long as every run so far had a sufficient budget the VM is in the reference's state
+    let mut in_sync = true;
+    for (i, (out, d)) in outs.iter().enumerate() {
+        let n = budgets[i];
+        let t = reference[i].1;
+        ctx.count("dispatches", (*d).min(n.saturating_add(1)));
+        let before: Vec<String> = (0..i).map(|j| format!("{} under budget {} ({} dispatched)", outs[j].0.result, budgets[j], outs[j].1)).collect();
+        if out.aborted {
+            return Some((
+                json!({"oracle": "overrun", "vm": "reused"}),
+                format!("run #{i} on a reused VM, budget {n}: more than {n} instructions were dispatched; earlier runs on this VM: {before:?}"),
+                budgets,
+            ));
+        }
+        if out.panic.is_some() {
+            if in_sync {
+                return Some((
+                    json!({"oracle": "budget-makes-the-run-panic", "vm": "reused"}),
+                    format!("run #{i} on a reused VM, budget {n}: the run panicked; the same history without limits does not; earlier runs: {before:?}"),
+                    budgets,
+                ));
+            }
+            break;
+        }
+        if !in_sync {
+            ctx.count("history_runs_judged_by_the_bound_only", 1);
+            continue;
+        }
+        let timed_out = innermost(&out.result) == "Timeout";
+        if timed_out {
+            ctx.count("fault:timeouts_fired", 1);
+        }
+        if n < t && !timed_out {
+            return Some((
+                json!({"oracle": "no-timeout-below-need", "vm": "reused"}),
+                format!("run #{i} on a reused VM needs {t} instructions, with budget {n} it ended with {} after {d} dispatches; earlier runs: {before:?}", out.result),
+                budgets,
+            ));
+        }
+        if n > t {
+            if !obs_equal(&reference[i].0, out) {
+                return Some((
+                    json!({"oracle": "sufficient-budget-changes-outcome", "vm": "reused"}),
+                    format!("run #{i} on a reused VM needs {t} instructions; with budget {n} the outcome is {} instead of {}; earlier runs: {before:?}", out.result, reference[i].0.result),
+                    budgets,
+                ));
+            }
+            ctx.count("probe:history_run_after_a_run_with_budget_to_spare", (i > 0) as u64);
+        } else {
+            // stopped early (or exactly at the edge): from here on the VM's state is its own
+            in_sync = n == t && obs_equal(&reference[i].0, out);
+        }
+    }
+    None
+}
+
 fn budgets_for(t: Option<u64>, cap: u64, rng: &mut crate::kernel::Rng) -> Vec<u64> {
     let mut s = BTreeSet::new();
     match t {
@@ -147,12 +278,20 @@ fn gen_case(ctx: &CaseCtx) -> (Module, Json) {
     }
 }
 
-fn examine(ctx: &mut CaseCtx, module: &Module, only_budget: Option<u64>) -> Vec<(Json, String, u64)> {
+/// `history`: None = the sweep, plus a seeded history for one case in three; Some(b) = only the
+/// history with these budgets (replay)
+fn examine(ctx: &mut CaseCtx, module: &Module, only_budget: Option<u64>, history: Option<Vec<u64>>) -> Vec<(Json, String, u64, Option<Vec<u64>>)> {
     let mut found = vec![];
     let Compiled::Ok(p) = compile_module(module) else {
         ctx.count("discarded_compile", 1);
         return found;
     };
+    if let Some(b) = history {
+        if let Some((sig, what, b)) = examine_history(ctx, &p, Some(b)) {
+            found.push((sig, what, 0, Some(b)));
+        }
+        return found;
+    }
     ctx.progress("run dry");
     let dry = run_budget(&p, 1 << 40, Some(DRY_CAP));
     ctx.evaluation();
@@ -182,11 +321,17 @@ fn examine(ctx: &mut CaseCtx, module: &Module, only_budget: Option<u64>) -> Vec<
     for n in budgets {
         ctx.progress(&format!("run budget {n}"));
         if let Some((sig, what)) = check_budget(&p, n, t, if dry.aborted { None } else { Some(&dry) }, ctx) {
-            if !found.iter().any(|(s, _, _): &(Json, String, u64)| s == &sig) {
-                found.push((sig, what, n));
+            if !found.iter().any(|(s, _, _, _): &(Json, String, u64, Option<Vec<u64>>)| s == &sig) {
+                found.push((sig, what, n, None));
             }
         }
         ctx.nontrivial(prng::mix(&[phash, n]));
+    }
+    // the same budgets on a VM with a past
+    if only_budget.is_none() && matches!(t, Some(t) if t <= 2500) && sr.chance(1, 3) {
+        if let Some((sig, what, b)) = examine_history(ctx, &p, None) {
+            found.push((sig, what, 0, Some(b)));
+        }
     }
     found
 }
@@ -203,7 +348,10 @@ impl Check for C03 {
          host re-entry (call0 stub called by card or as a native function value, try0 stub that swallows the callee's failure), __sort/__min key functions, std.map callbacks or plain calls) or a G-alloc program with \
          host re-entry and stdlib callbacks. T = instructions it needs (dry run). The budget N is then swept: every N in \
          1..=T+2 (seeded subset above a per-tier cap) plus T-1, T, T+1, 2T+1, 10T+1, u64::MAX-1, u64::MAX; fixed and seeded budgets for \
-         non-terminating programs. Every dispatch of every nested activation is counted by the controller. A run is \
+         non-terminating programs. For one terminating program in three the budgets are also tried on a VM with a past: 2-4 runs \
+         on one VM, each under its own budget (spare, short, exact), judged against the same history run without limits - every run \
+         is bounded by its own budget whatever earlier runs used or left over, and while all earlier runs had enough budget the \
+         outcome of a run with enough budget is the reference's. Every dispatch of every nested activation is counted by the controller. A run is \
          non-trivial if it was executed under a finite budget; distinct = distinct (program hash, N)."
             .to_string()
     }
@@ -218,28 +366,36 @@ impl Check for C03 {
         if ctx.case < 3 {
             ctx.sample = Some(json!({"workload": desc, "module": module_json(&module)}));
         }
-        let found = examine(ctx, &module, None);
-        for (sig, what, n) in found {
-            ctx.violation(sig, what, json!({"module": module_json(&module), "budget": n, "cards": count_cards(&module)}));
+        let found = examine(ctx, &module, None, None);
+        for (sig, what, n, h) in found {
+            ctx.violation(sig, what, json!({"module": module_json(&module), "budget": n, "history": h, "cards": count_cards(&module)}));
         }
     }
     fn minimise(&self, replay: &Json, sig: &Json) -> Json {
         let Some(module) = replay.get("module").and_then(module_from_json) else { return replay.clone() };
         let n = replay.get("budget").and_then(|b| b.as_u64()).unwrap_or(1);
+        let history: Option<Vec<u64>> = replay.get("history").and_then(|h| serde_json::from_value(h.clone()).ok()).flatten();
         let quiet = || {
             let mut c2 = CaseCtx::new("C03", 1, 0, Tier::Quick);
             c2.progress_enabled = false;
             c2
         };
         // keep the same oracle failing at any budget of the sweep
-        let mm = shrink_module(&module, 60, |cand| examine(&mut quiet(), cand, None).iter().any(|(s, _, _)| s == sig));
-        let n2 = examine(&mut quiet(), &mm, None).into_iter().find(|(s, _, _)| s == sig).map(|x| x.2).unwrap_or(n);
+        if history.is_some() {
+            // keep the same oracle failing under the same budgets
+            let mm = shrink_module(&module, 60, |cand| examine(&mut quiet(), cand, None, history.clone()).iter().any(|(s, _, _, _)| s == sig));
+            return json!({"module": module_json(&mm), "budget": n, "history": history, "cards": count_cards(&mm)});
+        }
+        let sweep = |cand: &Module| -> Vec<(Json, String, u64, Option<Vec<u64>>)> { examine(&mut quiet(), cand, None, None).into_iter().filter(|f| f.3.is_none()).collect() };
+        let mm = shrink_module(&module, 60, |cand| sweep(cand).iter().any(|(s, _, _, _)| s == sig));
+        let n2 = sweep(&mm).into_iter().find(|(s, _, _, _)| s == sig).map(|x| x.2).unwrap_or(n);
         json!({"module": module_json(&mm), "budget": n2, "cards": count_cards(&mm)})
     }
     fn replay(&self, replay: &Json, ctx: &mut CaseCtx) {
         let Some(m) = replay.get("module").and_then(module_from_json) else { return };
         let n = replay.get("budget").and_then(|b| b.as_u64());
-        for (sig, what, _) in examine(ctx, &m, n) {
+        let history: Option<Vec<u64>> = replay.get("history").and_then(|h| serde_json::from_value(h.clone()).ok()).flatten();
+        for (sig, what, _, _) in examine(ctx, &m, n, history) {
             ctx.violation(sig, what, replay.clone());
         }
     }
@@ -261,6 +417,8 @@ impl Check for C03 {
             "probe:timeout_inside_native_callback".into(),
             "probe:timeout_after_host_swallowed_a_callee_failure".into(),
             "programs_nonterminating".into(),
+            "histories_run".into(),
+            "probe:history_run_after_a_run_with_budget_to_spare".into(),
             "reach:nesting_depth_2".into(),
             "reach:nesting_depth_3".into(),
         ]
